@@ -22,7 +22,7 @@ def run_on(patch, checks):
         shutil.copy("/verif/known_findings.json", OUT + "/known_findings.json")
         for c in checks:
             env = dict(os.environ, VERIF_DIR=OUT)
-            p = subprocess.run(["/verif/sim/target/release/h3sim", c, "--no-evidence"], capture_output=True, text=True, env=env)
+            p = subprocess.run(["/verif/sim/target/release/h3sim", c, "--no-evidence", "--report-classes", "3", "--shrink-budget", "200"], capture_output=True, text=True, env=env)
             classes = re.findall(r"^  class: (.*?)  \(", p.stdout, re.M)
             extra = re.findall(r"unreported class: (.*?) \(", p.stdout)
             if p.returncode == 1:
